@@ -36,6 +36,8 @@ def c01(seed, tier):
                     btexts = [str(b) for b in bounds]
                     if tname in ("int", "int64", "uint8") and op == "gt":
                         btexts += ["0x10", "1e2"] + (["1_000"] if tname != "uint8" else [])
+                    if tname in ("int", "int16", "uint8", "uint64") and op in ("gte", "lt"):
+                        btexts += ["010", "0_17", "0b101", "0o17"]        # Go integer literal forms: legacy octal 010 = 8
                 else:
                     btexts = _float_bound_texts(t["vk"])
                     if not thorough:
@@ -164,6 +166,13 @@ def c03(seed, tier):
     for marker in ("minlength", "maxlength", "length"):
         for n in ns:
             fields.append(fld("%s%d" % (marker.capitalize()[:3], n), ["//govalid:%s=%d" % (marker, n)], basic("string")))
+    # N in other Go literal forms (the generator pastes the text; 010 is the octal constant 8)
+    for marker in ("minlength", "maxlength", "length"):
+        for k, txt in enumerate(["010", "0x10", "0_10", "0b11", "1_0"]):
+            fields.append(fld("%sL%d" % (marker.capitalize()[:3], k), ["//govalid:%s=%s" % (marker, txt)], basic("string")))
+    for unit in RUNE_UNITS[:4]:
+        for n in (7, 8, 9, 15, 16, 17):
+            strings.append(unit * n)
     names = [f["names"][0] for f in fields]
     cases = [case([set_str(nm, s) for nm in names]) for s in strings]
     return {"scenarios": [scenario("c03", [struct("T", fields, cases)])]}
@@ -195,7 +204,17 @@ def c04(seed, tier):
     top = struct("T", fields, cases)
     nested_cases = [case([dict(s, path="N." + s["path"]) for s in c["sets"]]) for c in cases]
     nested = struct("U", [fld("N", [], nested=fields)], nested_cases)
-    return {"scenarios": [scenario("c04", [top, nested], aux=aux)]}
+    # N in other Go literal forms (legacy octal 010 = 8, 0_10 = 8, 0x10 = 16, 0b101 = 5, 0o17 = 15, 1_0 = 10, 1_000) and larger collections
+    lfields = []
+    for marker in ("minitems", "maxitems"):
+        for kn, t in (("Sl", SLICE), ("Mp", MAP), ("Ar9", array(9)), ("Ch", CHAN)):
+            for k, txt in enumerate(["010", "0_10", "0x10", "0b101", "0o17", "1_0", "1_000"]):
+                lfields.append(fld("%s%sL%d" % (marker[:3].capitalize(), kn, k), ["//govalid:%s=%s" % (marker, txt)], t))
+    lcases = []
+    for ln in (0, 4, 5, 6, 7, 8, 9, 10, 11, 14, 15, 16, 17, 999, 1000, 1001):
+        lcases.append(case([set_coll(f["names"][0], False, ln) for f in lfields if f["type"]["vk"] == "coll"]))
+    lit = struct("L", lfields, lcases)
+    return {"scenarios": [scenario("c04", [top, nested, lit], aux=aux)]}
 
 
 def c05(seed, tier):
